@@ -3,6 +3,7 @@
 Explicit-state BFS over instance creation, instance / class / subclass assignments, in-place mutation of values and of Parameter
 attributes, against an ownership model: per-class defaults with attribute fall-through and copy-on-write, per-instance value store,
 identity (aliasing) tracking of every mutable value, and before/after snapshots of Parameter attributes."""
+import collections
 import copy
 
 from mc.engine import Harness, Result, V
@@ -11,7 +12,10 @@ from mc.world import reset_globals
 
 PARAMS = ['l', 's', 'n', 'k', 'g', 'x', 'lr', 'ro']
 INSTANTIATED = ['l', 'x', 'lr']
-ATTRS = [('n', 'bounds'), ('g', 'bounds'), ('n', 'doc'), ('sel', '_objects'), ('sel0', '_objects'), ('n', 'constant'), ('l', 'bounds')]
+ATTRS = [('n', 'bounds'), ('g', 'bounds'), ('n', 'doc'), ('sel', '_objects'), ('sel0', '_objects'), ('n', 'constant'), ('l', 'bounds'),
+         ('osel', '_objects'), ('osel', 'names')]
+PARENT = {'Leaf': 'Sub2', 'Sub2': 'Sub', 'Sub': 'M'}
+CLASSES = ['M', 'Sub', 'Sub2', 'Leaf']
 
 
 class Gen:
@@ -33,7 +37,7 @@ class Model:
     def __init__(self):
         self.contents = {}
         self.next = 0
-        self.cls = {'M': {}, 'Sub': {}}       # own class-level entries: param -> value (int or ('tok', t))
+        self.cls = {k: {} for k in CLASSES}   # own class-level entries: param -> value (int or ('tok', t))
         self.inst = []                        # dicts: cls, vals{param: value}
 
     def new(self, contents):
@@ -43,9 +47,9 @@ class Model:
         return ('tok', t)
 
     def class_value(self, k, p):
-        if p in self.cls[k]:
-            return self.cls[k][p]
-        return self.cls['M'][p]
+        while p not in self.cls[k]:
+            k = PARENT[k]
+        return self.cls[k][p]
 
     def value(self, holder, p):
         if isinstance(holder, int):
@@ -91,24 +95,29 @@ class C12(Harness):
             'sel': param.Selector(objects=['a', 'b']), 'sel0': param.Selector(),
             'x': param.Parameter(default=real['t3'], instantiate=True), 'lr': param.List(default=real['t4'], allow_refs=True),
             'ro': param.Parameter(default=real['t5'], readonly=True),
+            'osel': param.Selector(objects=collections.OrderedDict([('lo', 1), ('hi', 2)])),     # named objects kept in a dict subclass
             'dg': param.Number(default=Gen(0))}
         if cfg.get('falsy'):
             ns['__len__'] = lambda self: 0          # an (empty) container-like Parameterized is falsy
         M = type('M', (param.Parameterized,), ns)
         # Sub redeclares x with a more specific type that does not instantiate by default: instantiate=True must be inherited
         Sub = type('Sub', (M,), {'x': param.Selector(check_on_set=False)})
+        # two more levels that declare nothing: their .param caches are filled when they are instantiated
+        Sub2 = type('Sub2', (Sub,), {})
+        Leaf = type('Leaf', (Sub2,), {})
         m.cls['M'] = dict(d)
-        w = {'param': param, 'M': M, 'Sub': Sub, 'inst': []}
+        w = {'param': param, 'M': M, 'Sub': Sub, 'Sub2': Sub2, 'Leaf': Leaf, 'inst': []}
         return w, m
 
     def enabled(self, w, m):
         ops = []
         if len(m.inst) < 3:
-            ops += [['new', 'M', None], ['new', 'Sub', None], ['new', 'M', 'l'], ['new', 'Sub', 'skipref'], ['new', 'M', 'dg']]
+            ops += [['new', 'M', None], ['new', 'Sub', None], ['new', 'M', 'l'], ['new', 'Sub', 'skipref'], ['new', 'M', 'dg'], ['new', 'Leaf', None]]
         holders = list(range(len(m.inst)))
         for i in holders:
             ops += [['iset', i, 'n', 5], ['iupdate', i, 'n', 4], ['iset', i, 's', 'new'], ['iset', i, 'l', 'new'], ['mut', i, 'l'], ['mut', i, 's'], ['mut', i, 'k'], ['mut', i, 'x'], ['mut', i, 'lr'], ['objmut0', i], ['iset', i, 'sel0', 'alpha'],
-                    ['attr', i, 'n', 'bounds', [0, 5]], ['attr', i, 'g', 'bounds', [0, 6]], ['attr', i, 'n', 'doc', 'di'], ['objmut', i], ['touch', i, 'n']]
+                    ['attr', i, 'n', 'bounds', [0, 5]], ['attr', i, 'g', 'bounds', [0, 6]], ['attr', i, 'n', 'doc', 'di'], ['objmut', i], ['touch', i, 'n'],
+                    ['iset', i, 'n', 'cur'], ['iset', i, 's', 'cur'], ['oselmut', i]]
         for k in ('M', 'Sub'):
             ops += [['cset', k, 'n', 3 if k == 'M' else 4], ['cset', k, 's', 'new'], ['cset', k, 'l', 'new'], ['cset', k, 'k', 'new'],
                     ['mut', k, 'l'], ['mut', k, 's'], ['attr', k, 'n', 'bounds', [0, 8] if k == 'M' else [0, 9]], ['objmut', k], ['cdefault', k, 'ro']]
@@ -116,7 +125,7 @@ class C12(Harness):
 
     # -------- observation
     def holders(self, w, m):
-        return [('M', w['M']), ('Sub', w['Sub'])] + [(i, o) for i, o in enumerate(w['inst'])]
+        return [(k, w[k]) for k in CLASSES] + [(i, o) for i, o in enumerate(w['inst'])]
 
     def attr_snapshot(self, w, m):
         snap = {}
@@ -127,7 +136,7 @@ class C12(Harness):
                 else:
                     pobj = h.param[p]
                 v = getattr(pobj, a)
-                snap[(name, p, a)] = copy.copy(v) if isinstance(v, list) else v
+                snap[(name, p, a)] = copy.copy(v) if isinstance(v, (list, dict)) else v
         return snap
 
     def check_matrix(self, w, m, ctx, op):
@@ -213,6 +222,11 @@ class C12(Harness):
                         t = m.new([20 + len(m.contents)])
                         setattr(obj, op[2], list(m.contents[t[1]]))
                         m.inst[op[1]]['vals'][op[2]] = t
+                    elif op[3] == 'cur':
+                        # the instance explicitly assigns the very object that is the class default right now: from here on it is the instance's own value
+                        cur = getattr(type(obj), op[2])
+                        setattr(obj, op[2], cur)
+                        m.inst[op[1]]['vals'][op[2]] = m.class_value(m.inst[op[1]]['cls'], op[2])
                     else:
                         setattr(obj, op[2], op[3])
                         m.inst[op[1]]['vals'][op[2]] = op[3]
@@ -257,6 +271,9 @@ class C12(Harness):
                         got = getattr(h.param[op[2]], op[3])
                         if got != val:
                             vs.append(V('own-attribute', '%s: attribute read back as %r' % (ctx, got), op=k))
+                elif k == 'oselmut':
+                    w['inst'][op[1]].param.osel.objects['n%s' % op[1]] = 30 + op[1]
+                    unchanged_for = [n for n, _ in self.holders(w, m) if n != op[1]]
                 elif k == 'objmut0':
                     w['inst'][op[1]].param.sel0.objects.append('q%s' % op[1])
                     unchanged_for = [n for n, _ in self.holders(w, m) if n != op[1]]
@@ -294,7 +311,7 @@ class C12(Harness):
                                     op=k, attr=key_[2]))
         fp = None
         if not vs:
-            fp = try_fingerprint([('M', w['M']), ('Sub', w['Sub'])] + [('i%d' % i, o) for i, o in enumerate(w['inst'])],
+            fp = try_fingerprint([(k, w[k]) for k in CLASSES] + [('i%d' % i, o) for i, o in enumerate(w['inst'])],
                                  extra=repr((m.cls, m.inst, sorted(m.contents.items()))))
         nxt = [] if vs else self.enabled(w, m)
         return Result(vs[:4], fp=fp, next_ops=nxt, outcome=repr((m.cls, [i['vals'] for i in m.inst])), hits=hits)
